@@ -155,6 +155,15 @@ type funcInfo struct {
 	Accesses []access
 	Acquires []acquire
 	Calls    []callSite
+	Blocks   []blockSite // operations that wait for another goroutine
+	Shared   []string    // guarded slices / maps returned without a copy
+}
+
+// blockSite: a channel receive or send outside a select, or a WaitGroup / Cond wait: the goroutine stops until
+// another goroutine acts. Done while a lock is held, the other goroutine must never need that lock.
+type blockSite struct {
+	Op   string
+	Held heldSet
 }
 
 var (
@@ -258,6 +267,7 @@ type walker struct {
 	base     heldSet         // locks held when the body being walked was entered (a literal run in place)
 	deferred map[string]bool // class|inst|mode of locks whose release has been deferred in this body
 	deferAll bool            // a deferred call releases the caller's lock (unlockAndNotify)
+	inComm   bool            // walking the communication of a select case (one alternative among several)
 }
 
 // leakedAt: locks taken in the body being walked that are still held, with no deferred release,
@@ -555,6 +565,18 @@ func (w *walker) isConversion(c *ast.CallExpr) bool {
 }
 
 func (w *walker) call(c *ast.CallExpr, held heldSet) {
+	if sel, ok := c.Fun.(*ast.SelectorExpr); ok && sel.Sel.Name == "Sleep" && len(c.Args) == 1 {
+		if id, isId := sel.X.(*ast.Ident); isId {
+			if pn, isPkg := w.info.Uses[id].(*types.PkgName); isPkg && pn.Imported().Path() == "time" {
+				w.fn.Blocks = append(w.fn.Blocks, blockSite{Op: "sleeps", Held: held.clone()})
+			}
+		}
+	}
+	if sel, ok := c.Fun.(*ast.SelectorExpr); ok && sel.Sel.Name == "Wait" && len(c.Args) == 0 {
+		if tv, have := w.info.Types[sel.X]; have && (isSyncType(tv.Type, "WaitGroup") || isSyncType(tv.Type, "Cond")) {
+			w.fn.Blocks = append(w.fn.Blocks, blockSite{Op: "waits for " + exprText(sel.X), Held: held.clone()})
+		}
+	}
 	// atomic.Op(&x.f, ...)
 	if s, ok := c.Fun.(*ast.SelectorExpr); ok {
 		if id, isId := s.X.(*ast.Ident); isId {
@@ -698,6 +720,9 @@ func (w *walker) expr(e ast.Expr, held heldSet) {
 	case *ast.CallExpr:
 		w.call(v, held)
 	case *ast.UnaryExpr:
+		if v.Op == token.ARROW && !w.inComm {
+			w.fn.Blocks = append(w.fn.Blocks, blockSite{Op: "receives from " + exprText(v.X), Held: held.clone()})
+		}
 		if v.Op == token.AND {
 			if s, ok := v.X.(*ast.SelectorExpr); ok {
 				// address taken: conservatively a write unless the field is itself synchronised
@@ -883,6 +908,31 @@ func (w *walker) stmt(s ast.Stmt, held heldSet) (heldSet, bool) {
 	case *ast.ReturnStmt:
 		for _, r := range v.Results {
 			w.expr(r, held)
+			// a slice or map held in a field, handed to the caller as it is (or re-sliced) while the lock that guards
+			// it is held: the caller goes on reading the shared array after the lock is gone
+			e := r
+			for {
+				if p, ok := e.(*ast.ParenExpr); ok {
+					e = p.X
+				} else if sl, ok := e.(*ast.SliceExpr); ok {
+					e = sl.X
+				} else {
+					break
+				}
+			}
+			if sel, ok := e.(*ast.SelectorExpr); ok && len(held) > 0 {
+				if s, found := w.info.Selections[sel]; found && s.Kind() == types.FieldVal {
+					switch s.Obj().Type().Underlying().(type) {
+					case *types.Slice, *types.Map:
+						var cls []string
+						for _, l := range held {
+							cls = append(cls, l.Class)
+						}
+						sort.Strings(cls)
+						w.fn.Shared = append(w.fn.Shared, fmt.Sprintf("%s returns %s holding %s", w.fn.Name, exprText(sel), strings.Join(cls, "+")))
+					}
+				}
+			}
 		}
 		if leaked := w.leakedAt(held); len(leaked) > 0 {
 			problem("%s: returns at line %d still holding %s", w.fn.Name, fset.Position(v.Pos()).Line, strings.Join(leaked, "+"))
@@ -1004,6 +1054,9 @@ func (w *walker) stmt(s ast.Stmt, held heldSet) (heldSet, bool) {
 		w.call(v.Call, held)
 		w.inDefer = false
 	case *ast.SendStmt:
+		if !w.inComm {
+			w.fn.Blocks = append(w.fn.Blocks, blockSite{Op: "sends on " + exprText(v.Chan), Held: held.clone()})
+		}
 		w.expr(v.Chan, held)
 		w.expr(v.Value, held)
 	case *ast.LabeledStmt:
@@ -1054,7 +1107,9 @@ func (w *walker) clauses(list []ast.Stmt, held heldSet, isSelect bool) (heldSet,
 			if c.Comm == nil {
 				hasDefault = true
 			} else {
+				w.inComm = true
 				h, _ = w.stmt(c.Comm, h)
+				w.inComm = false
 			}
 			body = c.Body
 		}
@@ -1874,6 +1929,34 @@ func analyse() {
 	}
 	sort.Strings(dyn)
 	fmt.Fprintf(&b, "def dynamicCallsUnderLock : List String := [%s]\n\n", strings.Join(dyn, ", "))
+
+	// waits for another goroutine while a lock may be held
+	var blk []string
+	for _, n := range names {
+		for _, bs := range funcs[n].Blocks {
+			h := effective(union(may[n], must[n]), bs.Held, true)
+			if len(h) == 0 {
+				continue
+			}
+			var cls []string
+			for _, l := range h {
+				cls = append(cls, l.Class)
+			}
+			sort.Strings(cls)
+			blk = append(blk, leanStr(fmt.Sprintf("%s %s holding %s", n, bs.Op, strings.Join(cls, "+"))))
+		}
+	}
+	sort.Strings(blk)
+	fmt.Fprintf(&b, "def blockingUnderLock : List String := [%s]\n\n", strings.Join(blk, ", "))
+
+	var shr []string
+	for _, n := range names {
+		for _, x := range funcs[n].Shared {
+			shr = append(shr, leanStr(x))
+		}
+	}
+	sort.Strings(shr)
+	fmt.Fprintf(&b, "def sharedGuardedReturns : List String := [%s]\n\n", strings.Join(shr, ", "))
 
 	// functions that write a package-level variable, with their static callers: a variable that
 	// is only written during package initialisation needs no lock
